@@ -160,7 +160,7 @@ func (a *aliasProg) prelude() {
 	a.show()
 }
 
-const c09Creates = 30
+const c09Creates = 31
 const c09Updates = 14
 
 // create adds an alias-creating step of the given kind; returns false if not applicable.
@@ -322,6 +322,19 @@ func (a *aliasProg) create(kind int) bool {
 		name := a.fresh("f")
 		a.declare(name, tArrAN, gen.Binary{Op: "*", L: vr("nn", tArrAN), R: nl(2), T: tArrAN})
 		a.stmts = append(a.stmts, gen.Assign{Target: gen.Index{X: gen.Index{X: vr(name, tArrAN), I: nl(0), T: tArrN}, I: nl(0), T: tNum}, Val: nl(99)})
+	case 30: // an array grown by concatenation, then concatenated twice: three independent arrays
+		arr, _ := a.pick(tArrN)
+		g := a.fresh("g")
+		a.declare(g, tArrN, gen.Binary{Op: "+", L: vr(arr.Name, tArrN), R: arrLit(tArrN, nl(4)), T: tArrN})
+		for k := 0; k < r.Intn(3); k++ {
+			a.stmts = append(a.stmts, gen.Assign{Target: vr(g, tArrN), Val: gen.Binary{Op: "+", L: vr(g, tArrN), R: arrLit(tArrN, nl(float64(5+k))), T: tArrN}})
+		}
+		b1, b2 := a.fresh("g"), a.fresh("g")
+		a.declare(b1, tArrN, gen.Binary{Op: "+", L: vr(g, tArrN), R: arrLit(tArrN, nl(71)), T: tArrN})
+		a.declare(b2, tArrN, gen.Binary{Op: "+", L: vr(g, tArrN), R: arrLit(tArrN, nl(72), nl(73)), T: tArrN})
+		a.stmts = append(a.stmts, gen.Assign{Target: gen.Index{X: vr(b1, tArrN), I: nl(0), T: tNum}, Val: nl(100)},
+			gen.Assign{Target: gen.Index{X: vr(b2, tArrN), I: nl(-1), T: tNum}, Val: nl(200)},
+			gen.Assign{Target: vr(g, tArrN), Val: gen.Binary{Op: "+", L: vr(g, tArrN), R: arrLit(tArrN, nl(9)), T: tArrN}})
 	case 27: // results of functions that return err / errmsg, stored as literal elements
 		a.needFunc("geterr")
 		a.needFunc("getmsg")
